@@ -15,7 +15,7 @@ import (
 // Val is a JSON-friendly value tree used for arguments, metadata and policy
 // operands.
 type Val struct {
-	K string  `json:"k"` // int, float, str, bool, bytes, null, list, map
+	K string  `json:"k"` // int, float, str, rstr (string given as raw bytes, may be invalid UTF-8), bool, bytes, null, list, map
 	I int64   `json:"i,omitempty"`
 	F float64 `json:"f,omitempty"`
 	S string  `json:"s,omitempty"`
@@ -64,7 +64,7 @@ func valEqual(a, b Val) bool {
 		return a.S == b.S
 	case "bool":
 		return a.B == b.B
-	case "bytes":
+	case "bytes", "rstr":
 		return string(a.X) == string(b.X)
 	case "null":
 		return true
@@ -107,6 +107,8 @@ func (v Val) canon() string {
 		return fmt.Sprintf("b%v", v.B)
 	case "bytes":
 		return fmt.Sprintf("x%x", v.X)
+	case "rstr":
+		return fmt.Sprintf("r%x", v.X)
 	case "null":
 		return "null"
 	case "list":
